@@ -45,6 +45,12 @@ package obimultiplex
 //	           for the occasion (one by one, and as one slice): each read gives exactly the records (sequence
 //	           and every annotation) it gives alone on a library of its own.
 //
+// Order of the visit (added after a deadline-cut run on a loaded machine had finished the first sheets of the
+// list only and reported nothing on a change that breaks the per-primer @param forms): breadth first. The
+// libraries of every sheet and format, the @param sequences and the reads of every declared sample of every
+// sheet (both orientations) come first — a few CPU-seconds; the deep read families and the histories follow,
+// visited round-robin over the sheets, so that the internal deadline cuts depth, never whole sheets.
+//
 // A second test (TestVerifC12CLI) drives IExtractBarcode / CLINGSFIlter with the command's own option
 // variables (-t, --keep-errors, -u, and -e / --with-indels against the worker built with the same options)
 // and checks the routing of flagged and assigned records.
@@ -1381,18 +1387,123 @@ var c12barcodes = []string{"ctgaatcgtt", "gtcatacctgca", ""}
 var c12lefts = []string{"", "tat"}
 var c12rights = []string{"", "gga"}
 
-func (h *c12H) enumerate() {
-	r := h.r
-	thorough := verifkit.Thorough()
+// c12sched orders the work items of one shard. Every item gets its number k in the fixed enumeration order
+// (that number alone decides the shard), but the items of a shard are VISITED round-robin over their groups
+// (one group per sheet and format and read class): a run cut by the internal deadline has then gone equally
+// deep into every sheet instead of having finished the first sheets of the list and never opened the others.
+type c12sched struct {
+	h      *c12H
+	k      int
+	names  []string
+	groups map[string][]func()
+}
+
+func (s *c12sched) add(group string, f func()) {
+	mine := s.h.r.Mine(s.k)
+	s.k++
+	if !mine {
+		return
+	}
+	if _, ok := s.groups[group]; !ok {
+		s.names = append(s.names, group)
+	}
+	s.groups[group] = append(s.groups[group], f)
+}
+
+// run visits item 0 of every group, then item 1 of every group, ... (false: the deadline cut the visit).
+func (s *c12sched) run() bool {
+	for round := 0; ; round++ {
+		any := false
+		for _, g := range s.names {
+			items := s.groups[g]
+			if round >= len(items) {
+				continue
+			}
+			any = true
+			if s.h.r.Expired() {
+				return false
+			}
+			items[round]()
+			items[round] = nil
+		}
+		if !any {
+			s.names, s.groups = nil, map[string][]func(){}
+			return true
+		}
+	}
+}
+
+func (h *c12H) sheetNames() []string {
 	names := make([]string, 0, len(h.sheets))
 	for n := range h.sheets {
 		names = append(names, n)
 	}
 	sort.Strings(names)
-	k := 0
-	for _, name := range names {
+	return names
+}
+
+// enumerate: breadth first. Phase 1 (a few CPU-seconds, in front of everything so that no deadline on a loaded
+// machine can cut it): every library is read and compiled and its fields compared with the sheet, every
+// sequence of @param lines is compared with its declared meaning, and the read of EVERY declared sample of
+// every sheet and format (exact primers, every barcode, with and without flanks, both orientations) is
+// demultiplexed. Phase 2: the deep read families and the histories, round-robin over the sheets.
+func (h *c12H) enumerate() {
+	sc := &c12sched{h: h, groups: map[string][]func(){}}
+	h.enumLibraries(sc)
+	h.enumParams(sc)
+	h.enumDeclared(sc)
+	if !sc.run() {
+		return
+	}
+	h.enumReads(sc)
+	h.enumHistories(sc)
+	sc.run()
+}
+
+// enumLibraries: every (sheet, format) is read and compiled, the library fields are compared with the sheet.
+func (h *c12H) enumLibraries(sc *c12sched) {
+	for _, name := range h.sheetNames() {
 		sh := h.sheets[name]
 		for _, format := range sh.formats() {
+			sc.add("library", func() {
+				h.r.Count("front:libraries", 1)
+				h.eval(&c12Case{Class: "library", Sheet: sh.Name, Format: format})
+			})
+		}
+	}
+}
+
+// enumDeclared: the reads the first sentence of the statement is about, for every sample of every sheet.
+func (h *c12H) enumDeclared(sc *c12sched) {
+	for _, name := range h.sheetNames() {
+		sh := h.sheets[name]
+		for _, format := range sh.formats() {
+			for mi := range sh.Markers {
+				m := &sh.Markers[mi]
+				for _, smp := range m.Samples {
+					sc.add("declared", func() {
+						for _, bc := range c12barcodes {
+							for fl := range c12lefts {
+								for _, rev := range []bool{false, true} {
+									h.r.Count("front:declared_reads", 1)
+									h.eval(&c12Case{Class: "single", Sheet: sh.Name, Format: format, Left: c12lefts[fl], Right: c12rights[fl],
+										Amps: []c12Amp{{M: mi, TagF: smp.TagF, TagR: smp.TagR, PF: c12inst(m.F, false), PR: c12inst(m.R, false), BC: bc, Rev: rev}}})
+								}
+							}
+						}
+					})
+				}
+			}
+		}
+	}
+}
+
+func (h *c12H) enumReads(sc *c12sched) {
+	thorough := verifkit.Thorough()
+	for _, name := range h.sheetNames() {
+		sh := h.sheets[name]
+		for _, format := range sh.formats() {
+			group := "reads:" + sh.Name + "|" + format
 			reduced := format == "csv-direct" && !thorough // same reader behind the MIME detection
 			// ---- single amplicon reads ----
 			for mi := range sh.Markers {
@@ -1410,28 +1521,22 @@ func (h *c12H) enumerate() {
 				}
 				for _, tf := range tfs {
 					for _, pf := range pfs {
-						mine := r.Mine(k)
-						k++
-						if !mine {
-							continue
-						}
-						if r.Expired() {
-							return
-						}
-						for _, tr := range trs {
-							for _, pr := range prs {
-								for _, bc := range c12barcodes {
-									for _, l := range c12lefts {
-										for _, rg := range c12rights {
-											for _, rev := range []bool{false, true} {
-												h.eval(&c12Case{Class: "single", Sheet: sh.Name, Format: format, Left: l, Right: rg,
-													Amps: []c12Amp{{M: mi, TagF: tf, TagR: tr, PF: pf, PR: pr, BC: bc, Rev: rev}}})
+						sc.add(group, func() {
+							for _, tr := range trs {
+								for _, pr := range prs {
+									for _, bc := range c12barcodes {
+										for _, l := range c12lefts {
+											for _, rg := range c12rights {
+												for _, rev := range []bool{false, true} {
+													h.eval(&c12Case{Class: "single", Sheet: sh.Name, Format: format, Left: l, Right: rg,
+														Amps: []c12Amp{{M: mi, TagF: tf, TagR: tr, PF: pf, PR: pr, BC: bc, Rev: rev}}})
+												}
 											}
 										}
 									}
 								}
 							}
-						}
+						})
 					}
 				}
 			}
@@ -1479,66 +1584,53 @@ func (h *c12H) enumerate() {
 				joints := []string{"", "ttt"}
 				for i1, a1 := range pool {
 					for i2, a2 := range pool {
-						mine := r.Mine(k)
-						k++
-						if !mine {
-							continue
-						}
-						if r.Expired() {
-							return
-						}
-						for _, j := range joints {
-							for fl := 0; fl < 2; fl++ {
-								h.eval(&c12Case{Class: "chimera", Sheet: sh.Name, Format: format, Left: c12lefts[fl], Right: c12rights[fl],
-									Joints: []string{j}, Amps: []c12Amp{a1, a2}})
-							}
-						}
-						if len(pool) > 10 && !thorough && (i1%2 != i2%2) {
-							continue // quick tier, two markers: triples only from same-parity pool entries
-						}
-						for _, a3 := range pool {
+						sc.add(group, func() {
 							for _, j := range joints {
-								if j != "" && !thorough {
-									continue
+								for fl := 0; fl < 2; fl++ {
+									h.eval(&c12Case{Class: "chimera", Sheet: sh.Name, Format: format, Left: c12lefts[fl], Right: c12rights[fl],
+										Joints: []string{j}, Amps: []c12Amp{a1, a2}})
 								}
-								h.eval(&c12Case{Class: "chimera", Sheet: sh.Name, Format: format, Left: "", Right: "",
-									Joints: []string{j, j}, Amps: []c12Amp{a1, a2, a3}})
 							}
-						}
+							if len(pool) > 10 && !thorough && (i1%2 != i2%2) {
+								return // quick tier, two markers: triples only from same-parity pool entries
+							}
+							for _, a3 := range pool {
+								for _, j := range joints {
+									if j != "" && !thorough {
+										continue
+									}
+									h.eval(&c12Case{Class: "chimera", Sheet: sh.Name, Format: format, Left: "", Right: "",
+										Joints: []string{j, j}, Amps: []c12Amp{a1, a2, a3}})
+								}
+							}
+						})
 					}
 				}
 			}
 			// ---- truncated reads ----
 			for mi := range sh.Markers {
 				m := &sh.Markers[mi]
-				sem := sh.Sem[mi]
 				s0 := m.Samples[0]
 				for _, rev := range []bool{false, true} {
 					base := c12Case{Class: "truncated", Sheet: sh.Name, Format: format, Left: "tat", Right: "gga",
 						Amps: []c12Amp{{M: mi, TagF: s0.TagF, TagR: s0.TagR, PF: c12inst(m.F, false), PR: c12inst(m.R, false), BC: c12barcodes[0], Rev: rev}}}
-					_ = sem
 					n := len(c12build(sh, &base).read)
 					for from := 0; from < n; from++ {
-						mine := r.Mine(k)
-						k++
-						if !mine {
-							continue
-						}
-						for to := from + 1; to <= n; to++ {
-							if !thorough && from != 0 && to != n && to-from > 18 {
-								continue // quick tier: every prefix, every suffix, every sub-string of at most 18 nt
+						sc.add(group, func() {
+							for to := from + 1; to <= n; to++ {
+								if !thorough && from != 0 && to != n && to-from > 18 {
+									continue // quick tier: every prefix, every suffix, every sub-string of at most 18 nt
+								}
+								c := base
+								c.Cut, c.From, c.To = true, from, to
+								h.eval(&c)
 							}
-							c := base
-							c.Cut, c.From, c.To = true, from, to
-							h.eval(&c)
-						}
+						})
 					}
 				}
 			}
 		}
 	}
-	h.enumHistories(&k)
-	h.enumParams(&k)
 }
 
 // ---------------------------------------------------------------------------------------------
@@ -1623,8 +1715,7 @@ func c12histPool(sh *c12Sheet, format string) []c12Case {
 	return pool
 }
 
-func (h *c12H) enumHistories(k *int) {
-	r := h.r
+func (h *c12H) enumHistories(sc *c12sched) {
 	thorough := verifkit.Thorough()
 	names := make([]string, 0, len(h.sheets))
 	for n, sh := range h.sheets {
@@ -1640,30 +1731,25 @@ func (h *c12H) enumHistories(k *int) {
 			formats = []string{"old", "csv"}
 		}
 		for _, format := range formats {
+			group := "history:" + sh.Name + "|" + format
 			pool := c12histPool(sh, format)
 			for i1 := range pool {
 				for i2 := -1; i2 < len(pool); i2++ {
-					mine := r.Mine(*k)
-					*k++
-					if !mine {
-						continue
-					}
-					if r.Expired() {
-						return
-					}
-					if i2 < 0 {
-						h.eval(&c12Case{Class: "history", Sheet: sh.Name, Format: format, Hist: []c12Case{pool[i1]}})
-						continue
-					}
-					for _, one := range []bool{false, true} {
-						h.eval(&c12Case{Class: "history", Sheet: sh.Name, Format: format, OneSlice: one, Hist: []c12Case{pool[i1], pool[i2]}})
-					}
-					if len(sh.Markers) > 1 && !thorough && i1 != i2 && pool[i1].Amps[0].M == pool[i2].Amps[0].M {
-						continue // quick tier, two markers: triples start with two reads of different markers or twice the same read
-					}
-					for i3 := range pool {
-						h.eval(&c12Case{Class: "history", Sheet: sh.Name, Format: format, Hist: []c12Case{pool[i1], pool[i2], pool[i3]}})
-					}
+					sc.add(group, func() {
+						if i2 < 0 {
+							h.eval(&c12Case{Class: "history", Sheet: sh.Name, Format: format, Hist: []c12Case{pool[i1]}})
+							return
+						}
+						for _, one := range []bool{false, true} {
+							h.eval(&c12Case{Class: "history", Sheet: sh.Name, Format: format, OneSlice: one, Hist: []c12Case{pool[i1], pool[i2]}})
+						}
+						if len(sh.Markers) > 1 && !thorough && i1 != i2 && pool[i1].Amps[0].M == pool[i2].Amps[0].M {
+							return // quick tier, two markers: triples start with two reads of different markers or twice the same read
+						}
+						for i3 := range pool {
+							h.eval(&c12Case{Class: "history", Sheet: sh.Name, Format: format, Hist: []c12Case{pool[i1], pool[i2], pool[i3]}})
+						}
+					})
 				}
 			}
 		}
@@ -1958,8 +2044,7 @@ func c12paramName(line []string) string {
 	return line[0]
 }
 
-func (h *c12H) enumParams(k *int) {
-	r := h.r
+func (h *c12H) enumParams(sc *c12sched) {
 	voc := c12paramVocabulary()
 	maxn := 2
 	if verifkit.Thorough() {
@@ -1979,12 +2064,7 @@ func (h *c12H) enumParams(k *int) {
 			}
 		}
 		for _, l := range voc {
-			mine := r.Mine(*k)
-			*k++
-			if !mine || r.Expired() {
-				continue
-			}
-			rec([][]string{l})
+			sc.add("params:"+format, func() { rec([][]string{l}) })
 		}
 	}
 }
@@ -2094,9 +2174,12 @@ func TestVerifC12(t *testing.T) {
 	r.Bound("options", "-e {0,1,3} / --with-indels / -e 1 --with-indels on S1; -e 1 --with-indels on S2; -e 2, --with-indels on S4; -e 1 on S5")
 	r.Bound("extra_sheets", "S8 forward-primer indels + hamming | S9 reverse indels, two markers | S10 three markers sharing primers (single and truncated reads)")
 	r.Bound("histories", "ordered pairs (one by one and as one slice) and triples of 10 reads per marker + 1 without site, fresh library per history")
+	r.Bound("visit_order", "breadth first: libraries, @param sequences, declared reads of every sheet; then deep read families and histories round-robin over (sheet, format)")
 	r.Bound("param_lines", fmt.Sprintf("sequences of <= %d lines out of %d forms, 2 readers", map[bool]int{false: 2, true: 3}[verifkit.Thorough()], len(c12paramVocabulary())))
 	r.RequireNonVacuous("histories")
 	r.RequireNonVacuous("param_sheets")
+	r.RequireNonVacuous("front:libraries")
+	r.RequireNonVacuous("front:declared_reads")
 	r.RequireNonVacuous("construction:sample-expected")
 	r.RequireNonVacuous("construction:error-expected")
 	r.RequireNonVacuous("records_assigned")
@@ -2306,7 +2389,8 @@ func TestVerifC12CLI(t *testing.T) {
 	}
 	r.RequireNonVacuous("cli_records_out")
 	k := 0
-	for _, name := range []string{"S1-basic", "S2-two-markers", "S4-hamming"} {
+	// (S5: a sheet whose parameters are given per side and per primer, through the command's own way to the reader)
+	for _, name := range []string{"S1-basic", "S2-two-markers", "S4-hamming", "S5-levenshtein-per-primer"} {
 		sh := h.sheets[name]
 		for _, format := range sh.formats() {
 			if format == "csv-direct" {
